@@ -810,7 +810,7 @@ def nullable(node) -> bool:
 
 def preference_ambiguous(node) -> bool:
     """True when engines legitimately differ on the *span* chosen (never on the language):
-    a repeatable body (max > 1) that can match the empty string, or a back-reference to a group
+    a quantified body that can match the empty string, or a back-reference to a group
     that sits inside a repeated or alternative part (its capture at reference time is engine lore)."""
     amb = [False]
     risky_groups = set()
@@ -821,7 +821,8 @@ def preference_ambiguous(node) -> bool:
             for x in n[1]:
                 walk(x, in_rep_or_alt or t == 'alt')
         elif t == 'rep':
-            if (n[3] is None or n[3] > 1) and nullable(n[1]):
+            if n[3] != 0 and nullable(n[1]):
+                # also X? : ECMAScript-style engines reject an empty optional iteration, Perl-style ones accept it
                 amb[0] = True
             walk(n[1], True)
         elif t == 'ncg':
@@ -948,4 +949,5 @@ def self_test():
     assert strip_x('a b [ c ]\\ d \\p{ L u}') == 'ab[ c ]\\d\\p{Lu}'
     assert case_variants(ord('k')) >= {ord('K'), 0x212A} and ord('i') not in case_variants(0x130)
     assert preference_ambiguous(parse('(a*)*').node) and not preference_ambiguous(parse('(a*)b+').node)
+    assert preference_ambiguous(parse('(?:a??)?').node) and not preference_ambiguous(parse('(?:a|b)?').node)
     assert preference_ambiguous(parse('(?:(a)|b)\\1').node) and not preference_ambiguous(parse('(a)\\1').node)
